@@ -293,6 +293,6 @@ pub fn main(args: &Args) -> Report {
         *c <= 3
     });
     rep.out = out;
-    rep.floor("pairs judged", rep.out.evaluations, if thorough { 20_000_000 } else { 1_000_000 });
+    rep.floor("pairs judged", rep.out.evaluations, if thorough { 4_000_000 } else { 1_000_000 });
     rep
 }
